@@ -13,11 +13,59 @@ import (
 
 var reParamK = regexp.MustCompile(`funcExpr\.Param\[(\d+|\*)\]`)
 
+// an element of a sub-slice of the argument list (`for _, a := range funcExpr.Param[1:]`) is "some argument"
+var reParamSub = regexp.MustCompile(`funcExpr\.Param\[[^\]]*:[^\]]*\]\[(\d+|\*)\]`)
+
 // substStack: while a helper is being looked into, its parameter names stand for the caller's argument paths
 var substStack []map[string]string
 
+// resolvedPath: path(v), except that one result of a multi-result in-module helper (a validation phase returning
+// (key, …, err)) is spelled as what the helper returns there on its non-zero returns, in the caller's terms.
+func resolvedPath(v ssa.Value) string {
+	ex, ok := v.(*ssa.Extract)
+	if !ok {
+		return path(v)
+	}
+	call, ok := ex.Tuple.(*ssa.Call)
+	if !ok {
+		return path(v)
+	}
+	h := call.Call.StaticCallee()
+	if h == nil || !inModule(h) || len(h.Blocks) == 0 || h.Signature.Results().Len() < 2 || h.Signature.Recv() != nil {
+		return path(v)
+	}
+	vals := map[string]bool{}
+	allInstrs(h, func(in ssa.Instruction) {
+		ret, isR := in.(*ssa.Return)
+		if !isR || ex.Index >= len(ret.Results) {
+			return
+		}
+		rv := ret.Results[ex.Index]
+		if c, isC := rv.(*ssa.Const); isC && (c.Value == nil || c.Value.ExactString() == `""` || c.Value.ExactString() == "0" || c.Value.ExactString() == "false") {
+			return // the zero value beside an error
+		}
+		vals[resolvedPath(rv)] = true
+	})
+	if len(vals) != 1 {
+		return path(v)
+	}
+	p := sortedKeys(vals)[0]
+	if strings.Contains(p, "phi:") || strings.Contains(p, "?t") || strings.Contains(p, "alloc:") {
+		return path(v) // computed inside the helper, not a projection of its arguments
+	}
+	for k, prm := range h.Params {
+		if k < len(call.Call.Args) {
+			re := regexp.MustCompile(`(^|[^A-Za-z0-9_.])` + regexp.QuoteMeta(prm.Name()) + `($|[^A-Za-z0-9_])`)
+			for i := 0; i < 3 && re.MatchString(p); i++ {
+				p = re.ReplaceAllString(p, "${1}"+strings.ReplaceAll(path(call.Call.Args[k]), "$", "$$")+"${2}")
+			}
+		}
+	}
+	return p
+}
+
 func normKey(v ssa.Value) string {
-	p := path(v)
+	p := resolvedPath(v)
 	for i := len(substStack) - 1; i >= 0; i-- {
 		for name, actual := range substStack[i] {
 			re := regexp.MustCompile(`(^|[^A-Za-z0-9_.])` + regexp.QuoteMeta(name) + `($|[^A-Za-z0-9_])`)
@@ -26,6 +74,7 @@ func normKey(v ssa.Value) string {
 			}
 		}
 	}
+	p = reParamSub.ReplaceAllString(p, "P*")
 	p = reParamK.ReplaceAllString(p, "P$1")
 	p = strings.ReplaceAll(p, "getKeyName(P", "keyName(P")
 	p = strings.ReplaceAll(p, ")#0", ")")
@@ -102,7 +151,7 @@ func effectSites(t *Tree, f *ssa.Function, depth int) []effectSite {
 				sub := map[string]string{}
 				for k, prm := range cal.Params {
 					if k < len(a) {
-						sub[prm.Name()] = path(a[k])
+						sub[prm.Name()] = resolvedPath(a[k])
 					}
 				}
 				substStack = append(substStack, sub)
